@@ -63,11 +63,13 @@ func c14Scenarios(tier string) []c14Scenario {
 		{"shrink-2to1", []int{0, 1}, []int{1}},
 		{"replace-2", []int{0, 1}, []int{0, 2}},
 		{"shrink-3to1", []int{0, 1, 2}, []int{2}},
+		{"grow-1to3", []int{0}, []int{0, 1, 2}},  // one source, several destinations in one synchronisation
+		{"handover-1to2", []int{0}, []int{1, 2}}, // everything leaves, to two destinations
 	}
 	faults := []string{"none", "recv-chunk:0:error", "recv-chunk:1:error", "recv-chunk:1:exit", "send-chunk:1:exit", "between-phases:0:exit", "recv-chunk:2:exit", "send-chunk:0:exit", "send-chunk:2:exit", "recv-chunk:2:error", "recv-chunk:0:exit"}
 	synth := [][]int64{{chunk + 1, 100}, {chunk - 1}, {chunk}, {2*chunk + 4096}, {2 * chunk}, {chunk + 1, 2 * chunk}}
 	var out []c14Scenario
-	n := 12
+	n := 16
 	if tier == "thorough" {
 		n = len(topo) * len(faults)
 	}
@@ -224,7 +226,41 @@ func (c14) RunCase(c fw.Case, env *fw.Env) *fw.CaseResult {
 	g.ExtraProb = 0
 	type colKey struct{ user, col string }
 	stored := map[colKey]*model.Model{}
-	users := []string{"ann", "bob", "cy"}[:2+rng.IntN(2)]
+	// tenants: "bob" plus pairs of ids of which one is a proper prefix of the other (their records are
+	// neighbours in the key order of the node database). A pair is preferred when the two users have
+	// different owners under the new server list, so that records that sit next to each other on one
+	// source must leave for different destinations.
+	users := []string{"bob"}
+	{
+		newS := serversOf(sc.New)
+		own := func(u string) string { return cluster.RendezvousHash(u, newS, 1)[0] }
+		var split, same [][2]string
+		for _, base := range []string{"user1", "ann", "u", "t0", "cy"} {
+			for _, suf := range []string{"0", "a", "1x", "~", "-x", " b"} {
+				pr := [2]string{base, base + suf}
+				if own(pr[0]) != own(pr[1]) {
+					split = append(split, pr)
+				} else {
+					same = append(same, pr)
+				}
+			}
+		}
+		rng.Shuffle(len(split), func(a, b int) { split[a], split[b] = split[b], split[a] })
+		rng.Shuffle(len(same), func(a, b int) { same[a], same[b] = same[b], same[a] })
+		pairs := append(split, same...)
+		seen := map[string]bool{"bob": true}
+		for _, pr := range pairs[:2] {
+			for _, u := range pr {
+				if !seen[u] {
+					seen[u] = true
+					users = append(users, u)
+				}
+			}
+		}
+		if len(split) > 0 {
+			res.Stat("scenarios_with_prefix_related_tenants_on_different_owners", 1)
+		}
+	}
 	entryOld := oldNodes[sc.Old[0]]
 	for _, u := range users {
 		cl := httpx.NewClient(entryOld.HTTPAddr, u, "P")
